@@ -21,7 +21,7 @@ TLine == /\ l <= Len(Rec)
          /\ Rec[l].k \in Kinds \cup {"Bytes"}
          /\ \/ Rec[l].got = "panic"
             \/ Rec[l].k = "Bytes"
-            \/ Rec[l].got = Conv([k |-> Rec[l].k, f |-> Rec[l].f])
+            \/ (Rec[l].k \in Kinds /\ Rec[l].got = Conv([k |-> Rec[l].k, f |-> Rec[l].f]))
          /\ cur' = Rec[l] /\ l' = l + 1
 
 \* a mismatching line is skipped (reported as drift by the driver via SKIPPED lines)
